@@ -418,6 +418,22 @@ def decorated (m : FnMeta) (sig : Sig) (opts : Opts) (f : Body) (pos : List Val)
   | .error _ => ⟨[], .raised .typeError⟩
   | .ok (pos', kw') => wrapper m sig opts f pos' kw'
 
+/-- Stacked decoration `log_call(**outer)(log_call(**inner)(f))`.  The function the outer `log_call`
+wraps is the one boltons generated for the inner layer: its parameters are `sig.demote`, and calling it
+is `decorated … sig inner …`.  The inner action runs inside the outer one. -/
+def decoratedTwice (mOuter mInner : FnMeta) (sig : Sig) (optsOuter optsInner : Opts) (f : Body)
+    (pos : List Val) (kw : List (String × Val)) : Run :=
+  match outer sig.demote pos kw with
+  | .error _ => ⟨[], .raised .typeError⟩
+  | .ok (pos', kw') =>
+    match getcallargs sig.demote pos' kw' with
+    | .error _ => ⟨[], .raised .typeError⟩
+    | .ok ca0 =>
+      let ca2 := applyInclude optsOuter (Dict.del ca0 "self")
+      let start := startActionWithFields (theActionType mOuter optsOuter) ca2
+      let inner := decorated mInner sig optsInner f pos' kw'
+      ⟨start :: inner.msgs ++ [endMessage (theActionType mOuter optsOuter) optsOuter inner.result], inner.result⟩
+
 /-! ## Predicates used as hypotheses of the partial theorems -/
 
 /-- the keys `Action._start` writes itself, over whatever argument has the same name -/
